@@ -17,7 +17,7 @@ ASSUMPTIONS = [
     "the die has at least one refinable (ground or specialised) region: a fully blocked die cannot reach any count",
     "aspect ratio judged with relative slack 1e-12",
 ]
-CASES = {"quick": 6000, "thorough": 200000}
+CASES = {"quick": 6000, "thorough": 400000}
 MIN_CASES = {"quick": 1500, "thorough": 30000}
 REQUIRED_CLASSES = ["split", "grid"]
 REQUIRED_COUNTERS = ["split_judged", "grid_judged", "aspect_checked", "count_checked", "parent_tiling_checked", "untouched_checked", "r_below_2"]
